@@ -149,3 +149,4 @@ package forward
 //@   modifies external
 //@   wiring ReverseProxy.Director=New$1 ReverseProxy.ErrorHandler=DefaultHandler.ServeHTTP
 //@   ensures result != nil && fresh(result)
+//@   ensures {C16} responses_relayed_as_they_come: result.ModifyResponse == nil && result.Transport == nil
